@@ -135,7 +135,7 @@ def round_trip(data_format, table, fs, target, source):
         reader_source = "out.csv"
     else:
         reader_source = fs.text_stream("out.csv", encoding="utf-8", newline="")
-    status, value = lib.call(lambda: [list(row) for row in rowio.delimited_rows(reader_source, data_format)])
+    status, value = lib.call(lambda: lib.collect_rows(rowio.delimited_rows(reader_source, data_format)))
     return ("ok" if status == "ok" else "read-exc"), value
 
 
@@ -161,15 +161,17 @@ def round_trip_validio(cid, table, fs, target, source, one_shot=False):
         actual_target = io.StringIO(newline="")
 
     def write():
+        given = [list(row) for row in table]
         writer = cutplace.Writer(cid, actual_target)
         try:
             if one_shot:
-                writer.write_rows(iter([list(row) for row in table]))  # any iterable of rows, also a one-shot one
+                writer.write_rows(iter(given))  # any iterable of rows, also a one-shot one
             else:
-                for row in table:
-                    writer.write_row(list(row))
+                for row in given:
+                    writer.write_row(row)
         finally:
             writer.close()
+        lib.check_rows_untouched(given, table)
 
     status, value = lib.call(write)
     if status == "exc":
@@ -183,17 +185,19 @@ def round_trip_validio(cid, table, fs, target, source, one_shot=False):
             reader_source = io.StringIO(text, newline="")
     else:
         reader_source = "out.csv" if source == "path" else fs.text_stream("out.csv", encoding="utf-8", newline="")
-    status, value = lib.call(lambda: [list(row) for row in cutplace.rows(cid, reader_source)])
+    status, value = lib.call(lambda: lib.collect_rows(cutplace.rows(cid, reader_source)))
     return ("ok" if status == "ok" else "read-exc"), value
 
 
 def _write(rowio, target, data_format, table):
+    given = [list(row) for row in table]
     writer = rowio.DelimitedRowWriter(target, data_format)
     try:
-        for row in table:
-            writer.write_row(list(row))
+        for row in given:
+            writer.write_row(row)
     finally:
         writer.close()
+    lib.check_rows_untouched(given, table)
 
 
 def _features(config, table):
